@@ -73,6 +73,13 @@ def marshal (rawDetails : Bytes) (curve : Nat) (publicKey : Option Bytes) (signa
 def marshalForHandshakes (rawDetails signature : Bytes) : Bytes :=
   encTLV tagSequence (rawDetails ++ encTLV tagCertSignature signature)
 
+/-- The size guard of `SignWith`: `len(c.Marshal()) > MaxCertificateSize` for the signed certificate (`false`
+when the details do not marshal: that error has surfaced before). -/
+def tooLarge (c : Cert) : Bool :=
+  match encodeDetails c with
+  | some rd => decide ((marshal rd c.curve (some c.publicKey) c.signature).length > Gen.cert_MaxCertificateSize)
+  | none => false
+
 /-- the bytes covered by the signature (`marshalForSigning`, `CheckSignature`): rawDetails ‖ curve ‖ publicKey. -/
 def signedBytes (rawDetails : Bytes) (curve : Nat) (publicKey : Bytes) : Bytes :=
   rawDetails ++ [UInt8.ofNat curve] ++ publicKey
